@@ -53,7 +53,38 @@ def _idx_json(idx):
     return out
 
 
+class VarProxy:
+    """Stands in for the netCDF4 / h5netcdf variable inside cfdm's indexer: forwards
+    everything, logs how many elements each read of the file variable returned."""
+
+    def __init__(self, v):
+        object.__setattr__(self, "_v", v)
+
+    def __getattr__(self, name):
+        return getattr(object.__getattribute__(self, "_v"), name)
+
+    def __getitem__(self, idx):
+        r = object.__getattribute__(self, "_v")[idx]
+        LOG.append({"e": "raw", "size": int(np.size(r))})
+        return r
+
+    def __len__(self):
+        return len(object.__getattribute__(self, "_v"))
+
+
 def instrument():
+    try:
+        from cfdm.data import netcdfindexer
+        og_init = netcdfindexer.netcdf_indexer.__init__
+
+        def init(self, variable, *a, **k):
+            if not isinstance(variable, np.ndarray):
+                variable = VarProxy(variable)
+            og_init(self, variable, *a, **k)
+
+        netcdfindexer.netcdf_indexer.__init__ = init
+    except Exception:      # the indexer moved: raw reads are then simply not observed
+        pass
     for cls in (cfdm.NetCDF4Array, cfdm.H5netcdfArray):
         def mk(cls):
             og, oo, oc = cls.__getitem__, cls.open, cls.close
@@ -303,7 +334,8 @@ def do_ops(p):
     scratch = p["scratch"]
     instrument()
     paths = {}
-    for k, spec in enumerate(p["files"]):
+    files = {int(k): v for k, v in p["files"].items()} if isinstance(p["files"], dict) else dict(enumerate(p["files"]))
+    for k, spec in files.items():
         path = os.path.join(scratch, f"c12_{os.getpid()}_{k}.nc")
         write_int_file(path, spec)
         paths[k] = path
@@ -311,7 +343,7 @@ def do_ops(p):
     for c in p["cases"]:
         row = {"i": c["i"]}
         try:
-            spec = p["files"][c["file"]]
+            spec = files[c["file"]]
             key = (c["file"], c["backend"])
             if key not in cache:
                 fields = cfdm.read(paths[c["file"]], netcdf_backend=c["backend"])
@@ -683,7 +715,11 @@ def do_fieldops(p):
             cross = []
             for x, y in zip(lazy, eager):
                 try:
-                    cross.append([bool(x.equals(y)), bool(y.equals(x))])
+                    e = [bool(x.equals(y)), bool(y.equals(x))]
+                    if e != [True, True]:
+                        # do the values, masks and kinds of data type differ at all?
+                        e.append("same-fingerprint" if fp_field(x) == fp_field(y) else "different-fingerprint")
+                    cross.append(e)
                 except Exception as ex:
                     cross.append("raised:" + type(ex).__name__)
             row["cross"] = cross
